@@ -403,7 +403,8 @@ def gen_stft_cfg(rng):
   elif r < .35:
     cfg["wnd"] = None
   else:
-    cfg["wnd"] = (rng.choice(["list", "tuple", "gen", "callable", "callgen"]),
+    cfg["wnd"] = (rng.choice(["list", "tuple", "gen", "callable", "callgen",
+                              "stream"]),
                   rwindow(rng, size, h, False, False))
   allnone = rng.random() < .25
   tr = None if allnone else rng.choice([None, "ramp", "ext", "rev"])
@@ -433,7 +434,8 @@ def gen_stft_cfg(rng):
       cfg["ola_wnd"] = None
     else:
       cfg["ola_wnd"] = rwspec(rng, size, h, norm_on,
-                              ("list", "tuple", "gen", "callable", "callgen"))
+                              ("list", "tuple", "gen", "callable", "callgen",
+                               "stream"))
     # the overlap-add's own geometry options travel the same way: a synthesis
     # hop different from the analysis hop, the (same) size under its prefix
     if rng.random() < .2:
@@ -593,7 +595,8 @@ def gen_reuse_case(rng):
     calls[0] = True
   return ("reuse", rng.choice(["callable-shared-list", "cached-callable",
                                "list-object", "stft-shared-callable",
-                               "stft-partial-siblings"]),
+                               "stft-partial-siblings",
+                               "stft-processor-called-again"]),
           size, hop, wvals, blks, calls)
 
 
@@ -608,6 +611,42 @@ def run_reuse(ctx, case):
   else:
     wnd = lambda n: owned
   ctx.count("reuse:" + how)
+  if how == "stft-processor-called-again":
+    # one processor object applied several times, once with options given at
+    # call time: every call sees the processor's own definition again
+    x = [v for blk in blks for v in blk]
+    ident = lambda blk: blk
+    kw = dict(size=size, hop=hop, transform=None, inverse_transform=None,
+              before=None, after=None, ola=overlap_add.list,
+              wnd=list(wvals), ola_wnd=list(wvals))
+    proc = stft(ident, **kw) if calls[0] else stft(**kw)(ident)
+    g = gain_of(wvals, size, hop, True)
+    if g is None:
+      return False
+    xb = blocks_expected(x, size, hop)
+    wb = [[frac(v) * frac(w) for v, w in zip(blk, wvals)] for blk in xb]
+    want, mag = ola_expected(wb, size, hop, wvals, g)
+    g2 = gain_of(None, size, size, True)
+    want2, mag2 = ola_expected(blocks_expected(x, size, size), size, size,
+                               None, g2)
+    plan = [(want, mag, {}), (want, mag, {}),
+            (want2, mag2, dict(hop=size, wnd=None, ola_wnd=None)),
+            (want, mag, {})]
+    for idx, (w_, m_, extra) in enumerate(plan):
+      got, exc, hit = drain(proc(list(x), **extra), limit=len(w_) + size + 8)
+      if exc is not None:
+        ctx.violation("reuse/processor-raises-when-called-again", case,
+                      call=idx, error=repr(exc)[:300])
+        return True
+      if len(got) != len(w_) or not compare(
+          ctx, case, "reuse/processor-differs-when-called-again", got, w_, m_,
+          False, "reuse_again"):
+        if len(got) != len(w_):
+          ctx.violation("reuse/processor-differs-when-called-again", case,
+                        call=idx, got_len=len(got), want_len=len(w_))
+        return True
+    ctx.count("reuse:calls-compared", len(plan))
+    return True
   if how == "stft-partial-siblings":
     # several wrappers derived from ONE partial object: what one derivation
     # passed must not leak into its siblings
@@ -1134,7 +1173,8 @@ def run_case(ctx, case):
 
 def finish(ctx):
   for how in ["callable-shared-list", "cached-callable", "list-object",
-              "stft-shared-callable", "stft-partial-siblings"]:
+              "stft-shared-callable", "stft-partial-siblings",
+              "stft-processor-called-again"]:
     ctx.need("reuse:" + how, 50)
   ctx.need("reuse:calls-compared", 500)
   q = ctx.quick
